@@ -655,7 +655,7 @@ class C20(PropBase):
                      ["--help-markdown", "--json", "@D"], ["--output_file", "@O", "@D"], ["--outputfile=@O", "@D"], ["-o", "@O", "@D"]):
             argv_case("argv_invalid", "R", toks, out="g" if any("@O" in t for t in toks) else "-", modes="c" if any("@C" in t for t in toks) else "-")
         # help / version: status 0, text on standard output, no sink is opened (clap ends the process inside Cli::parse())
-        for toks in (["--help"], ["-h"], ["--version"], ["-V"], ["-hV"], ["-Vh"], ["-hx"], ["--help", "--bogus"], ["-h", "--bogus"],
+        for toks in (["--help"], ["-h"], ["--version"], ["-V"], ["-hV"], ["-Vh"], ["-hx"], ["-h=foo"], ["-V=1"], ["-h-"], ["--help", "--bogus"], ["-h", "--bogus"],
                      ["--json", "--human", "--help"], ["--features", "stable-all", "--help"], ["@D", "--help"], ["@D", "@S", "-V"],
                      ["--log-file", "@L", "--json", "--output-file=@O", "--help", "@D"], ["--cyborg", "@C", "--log-file=@L", "@D", "--version"],
                      ["--output-file", "@O", "-h"], ["--help-markdown", "@D", "--help"], ["--verbose=trace", "--log-file", "@L", "--version", "@D"]):
@@ -667,7 +667,8 @@ class C20(PropBase):
                           modes="c" if has("@C") else "-", cy=pre if has("@C") else "-")
         # valid but unusual
         for toks, kw in ((["--", "@D"], {}), (["--json", "--", "@D"], dict(modes="j")), (["--json", "--", "@D", "@S"], dict(modes="j", sym="p")),
-                         (["--", "--help"], dict(inp="X:missing")), (["--", "--json"], dict(inp="X:missing")), (["-"], dict(inp="X:missing")),
+                         (["--", "--help"], dict(inp="X:missing")), (["--", "--json"], dict(inp="X:missing")), (["-"], dict(inp="X:missing")), (["-", "--json"], dict(inp="X:missing", modes="j")),
+                         (["--json", "-"], dict(inp="X:missing", modes="j")),
                          (["@D", "--", "@S"], dict(sym="p")), (["--features=stable-all", "@D", "--", "@S"], dict(sym="p", feat=1))):
             inp = kw.pop("inp", "F:test.dmp")
             argv_case("argv_forms", "S", toks, inp, **kw)
